@@ -333,7 +333,7 @@ func (w *Workbook) WriteDisabled(path string, disable map[int]bool) error {
 			if l%2 == 0 {
 				pre := ""
 				if i := strings.Index(m, ":c "); i > 0 && i < 8 {
-					pre = m[1:i+1]
+					pre = m[1 : i+1]
 				}
 				return `<` + pre + `c r="P` + sub[1] + `"><` + pre + `v>0</` + pre + `v></` + pre + `c>`
 			}
